@@ -84,7 +84,10 @@ fn extract_bracket_expr(pattern: &str) -> Option<(String, &str)> {
                     if matches!(delim, '.' | '=' | ':') {
                         let rest = chars.as_str();
                         let end = rest.find([delim, ']'])? + 2;
-                        expr.push_str(&rest[..end]);
+                        // `end` may lie past the end of the pattern or inside a
+                        // multi-byte character: then there is no closing
+                        // delimiter and '[' is an ordinary character.
+                        expr.push_str(rest.get(..end)?);
                         chars = rest[end..].chars();
                     }
                 }
